@@ -95,7 +95,7 @@ Example C01_witness_run :
 Proof. vm_compute. split; reflexivity. Qed.
 
 (* both encodings of a group without nodes: the empty DenseNodes message (what protobuf encoders
-   write; accepted since fix e69cac9) and the three mandatory columns with length 0 *)
+   write; accepted since fix d133072) and the three mandatory columns with length 0 *)
 Example C01_witness_empty_dense :
   let fl0 := mkFl false false false false false false in
   let b := mkBlockD [[]] false None None None None
